@@ -115,7 +115,7 @@ impl Space for Compiled {
         for time in [PlainTime::try_new(1, 2, 3, 4, 5, 6).unwrap(), PlainTime::try_new(2, 30, 0, 0, 0, 0).unwrap()] {
             pair!(out, n, "ZonedDateTime::with_plain_time", attrs, z.with_plain_time(time), z.with_plain_time_and_provider(time, &p));
         }
-        let durs = [dur10([1., 2., 3., 4., 5., 6., 7., 8., 9., 10.]).unwrap(), dur10([0., 0., 0., 0., -25., 0., 0., 0., 0., -1.]).unwrap(), dur10([0., 1., 0., 0., 0., 0., 0., 0., 0., 0.]).unwrap()];
+        let durs = [dur10([1., 2., 3., 4., 5., 6., 7., 8., 9., 10.]).unwrap(), dur10([0., 0., 0., 0., -25., 0., 0., 0., 0., -1.]).unwrap(), dur10([0., 1., 0., 0., 0., 0., 0., 0., 0., 0.]).unwrap(), dur10([0., 0., 0., 1., 0., 0., 0., 0., 0., 0.]).unwrap(), dur10([0., 0., 0., -2., -3., 0., 0., 0., 0., 0.]).unwrap()];
         for d in &durs {
             for ov in [None, Some(ArithmeticOverflow::Constrain), Some(ArithmeticOverflow::Reject)] {
                 pair!(out, n, "ZonedDateTime::add", attrs, z.add(d, ov), z.add_with_provider(d, ov, &p));
